@@ -8,6 +8,12 @@
 (* One action per public call; they interleave freely: a holder is mutated, asked for its  *)
 (* column list, rendered, mutated again, rendered again ... and every table is judged      *)
 (* against what the holder stores AT THAT MOMENT:                                          *)
+(*   Create(a)           TimeSeriesHolder(a): the constructor argument names the holder's   *)
+(*                       time axis ('k' for results, 'iteration' for the solver's step      *)
+(*                       trace).  It is state and changes NOTHING about the table: the       *)
+(*                       priority order is the documented literal one, whatever the axis is  *)
+(*                       called (a step trace stores a k column too).  A solve hands over    *)
+(*                       the solver's own holder, whose axis is 'k'.                         *)
 (*   Put(n, len, kind)   AppendValue path: create the series n with len values (an empty   *)
 (*                       one by holder[n] = []), or extend it to len values; kind "int":   *)
 (*                       every value is a Python int, "num": ints and floats               *)
@@ -169,9 +175,10 @@ VARIABLES phase,     \* "build" | "run" (the holder is a solver's, after a solve
           conds,     \* initial conditions written into the equation block: set of [name, sp]
           opts,      \* solver options set before the solve: [trace, steady]
           pending,   \* [is, vars]: a block over vars has been parsed and not yet solved
+          axis,      \* the constructor argument of the holder (name of its time axis)
           hist       \* history of calls (see Op)
 
-vars == << phase, holder, solved, table, stated, conds, opts, pending, hist >>
+vars == << phase, holder, solved, table, stated, conds, opts, pending, axis, hist >>
 
 NoPending == [is |-> FALSE, vars |-> {}]
 
@@ -191,7 +198,13 @@ NotSolved == [is |-> FALSE, horizon |-> 0]
 EmptyHolder == [n \in {} |-> [len |-> 0, kind |-> "int"]]
 
 Init == /\ phase = "build" /\ holder = EmptyHolder /\ solved = NotSolved
-        /\ table = NoTable /\ stated = Unstated /\ conds = {} /\ opts = NoOpts /\ pending = NoPending /\ hist = << >>
+        /\ table = NoTable /\ stated = Unstated /\ conds = {} /\ opts = NoOpts /\ pending = NoPending /\ axis = NmK /\ hist = << >>
+
+Create(a) ==
+    /\ hist = << >>
+    /\ axis' = a
+    /\ hist' = Append(hist, Op("create", a, 0, "int", "", 0))
+    /\ UNCHANGED << phase, holder, solved, table, stated, conds, opts, pending >>
 
 Put(n, len, kind) ==
     /\ n \in DOMAIN holder => len > holder[n].len
@@ -200,6 +213,7 @@ Put(n, len, kind) ==
     /\ table' = NoTable /\ solved' = NotSolved
     /\ hist' = Append(hist, Op("put", n, len, kind, "", 0))
     /\ UNCHANGED << phase, stated, conds, opts, pending >>
+    /\ UNCHANGED axis
 
 Store(n, len, kind) ==
     /\ Cardinality(DOMAIN holder \cup {n}) <= MaxNames
@@ -207,6 +221,7 @@ Store(n, len, kind) ==
     /\ table' = NoTable /\ solved' = NotSolved
     /\ hist' = Append(hist, Op("store", n, len, kind, "", 0))
     /\ UNCHANGED << phase, stated, conds, opts, pending >>
+    /\ UNCHANGED axis
 
 Delete(n) ==
     /\ n \in DOMAIN holder
@@ -214,16 +229,19 @@ Delete(n) ==
     /\ table' = NoTable /\ solved' = NotSolved
     /\ hist' = Append(hist, Op("del", n, 0, "int", "", 0))
     /\ UNCHANGED << phase, stated, conds, opts, pending >>
+    /\ UNCHANGED axis
 
 List ==
     /\ hist' = Append(hist, Op("list", << >>, 0, "int", "", 0))
     /\ UNCHANGED << phase, holder, solved, table, stated, conds, opts, pending >>
+    /\ UNCHANGED axis
 
 Condition(n, sp) ==
     /\ phase = "build"
     /\ conds' = conds \cup {[name |-> n, sp |-> sp]}
     /\ hist' = Append(hist, [Op("cond", n, 0, "num", "", 0) EXCEPT !.sp = sp])
     /\ UNCHANGED << phase, holder, solved, table, stated, opts, pending >>
+    /\ UNCHANGED axis
 
 SetTrace(w) ==
     /\ phase = "build"
@@ -231,12 +249,14 @@ SetTrace(w) ==
     /\ opts' = [opts EXCEPT !.trace = w]
     /\ hist' = Append(hist, [Op("trace", << >>, 0, "int", "", 0) EXCEPT !.place = w])
     /\ UNCHANGED << phase, holder, solved, table, stated, conds, pending >>
+    /\ UNCHANGED axis
 
 SetSteady ==
     /\ phase = "build"
     /\ opts' = [opts EXCEPT !.steady = TRUE]
     /\ hist' = Append(hist, Op("steady", << >>, 0, "int", "", 0))
     /\ UNCHANGED << phase, holder, solved, table, stated, conds, pending >>
+    /\ UNCHANGED axis
 
 StateHorizon(place, h) ==
     /\ phase = "build"
@@ -244,6 +264,7 @@ StateHorizon(place, h) ==
                                      ELSE [stated EXCEPT !.block = [is |-> TRUE, h |-> h]]
     /\ hist' = Append(hist, [Op("horizon", << >>, 0, "int", "", h) EXCEPT !.place = place])
     /\ UNCHANGED << phase, holder, solved, table, conds, opts, pending >>
+    /\ UNCHANGED axis
 
 Block(V) ==
     /\ pending' = [is |-> TRUE, vars |-> V]
@@ -252,6 +273,7 @@ Block(V) ==
     /\ stated' = [stated EXCEPT !.block = NoHorizon]
     /\ hist' = Append(hist, [Op("block", << >>, 0, "num", "", 0) EXCEPT !.vars = SortedSeq(V)])
     /\ UNCHANGED << holder, solved, table, opts >>
+    /\ UNCHANGED axis
 
 (* SetInitialConditions builds a NEW holder: every variable gets one value, each step appends one *)
 Solve(vs) ==
@@ -265,6 +287,7 @@ Solve(vs) ==
     /\ pending' = NoPending
     /\ hist' = Append(hist, Op("solve", << >>, 0, "num", "", Effective(stated)))
     /\ UNCHANGED << stated, conds, opts >>
+    /\ axis' = NmK
 
 SolveFailed(obs) ==
     /\ phase = "build"
@@ -275,12 +298,14 @@ SolveFailed(obs) ==
     /\ pending' = NoPending
     /\ hist' = Append(hist, Op("solvefail", << >>, 0, "num", "", 0))
     /\ UNCHANGED << stated, conds, opts >>
+    /\ axis' = NmK
 
 Render(fmt) ==
     /\ fmt \in IntOnlyFormats => AllInt(holder)
     /\ table' = RenderOp(holder, fmt)
     /\ hist' = Append(hist, Op("render", << >>, 0, "int", fmt, 0))
     /\ UNCHANGED << phase, holder, solved, stated, conds, opts, pending >>
+    /\ UNCHANGED axis
 
 Next == /\ Len(hist) < MaxOps
         /\ \/ \E n \in Names, len \in 0..MaxLen, kind \in Kinds : Put(n, len, kind) \/ Store(n, len, kind)
@@ -288,6 +313,7 @@ Next == /\ Len(hist) < MaxOps
            \/ List
            \/ \E n \in Names, sp \in BOOLEAN : Condition(n, sp)
            \/ \E h \in Horizons, pl \in Places : StateHorizon(pl, h)
+           \/ \E a \in Names : Create(a)
            \/ \E V \in SUBSET Names : Block(V)
            \/ \E w \in TraceWheres : SetTrace(w)
            \/ SetSteady
@@ -315,4 +341,5 @@ TypeOK == /\ phase \in {"build", "run"}
           /\ Len(hist) <= MaxOps
           /\ (solved.is /\ ~pending.is /\ phase = "run") => solved.horizon = Effective(stated)
           /\ table.done => hist # << >> /\ hist[Len(hist)].op \in ObsOps \cup {"horizon", "cond", "trace", "steady", "block"}
+          /\ phase = "run" => axis = NmK
 =============================================================================
